@@ -104,6 +104,20 @@ impl<T: Eq + PartialOrd + Send + Sync, A: Clone> Graph<T, A> {
         if self.edges@.contains_key(k) { self.edges@[k]@ } else { Seq::empty() }
     }
 
+    // every member of an index set is a position (follows from wf_index_sets + wf_estore, lemma in u_coh)
+    pub open spec fn wf_index_members(&self) -> bool {
+        &&& forall|i: usize, j: usize| #[trigger] self.succ_set(i).contains(j) ==> j < self.n()
+        &&& forall|i: usize, j: usize| #[trigger] self.pred_set(i).contains(j) ==> j < self.n()
+    }
+
+    // `out` lists the nodes at the positions of `set`, each position exactly once (in some order)
+    pub open spec fn lists_nodes_of(&self, set: Set<usize>, out: Seq<&Arc<Node<T, A>>>) -> bool {
+        &&& out.len() == set.len()
+        &&& exists|src: Seq<usize>| src.len() == out.len() && src.no_duplicates()
+                && (forall|k: int| 0 <= k < src.len() ==> set.contains(#[trigger] src[k]) && src[k] < self.n() && **out[k] == *self.nodes_vec@[src[k] as int])
+                && (forall|x: usize| set.contains(x) ==> #[trigger] src.contains(x))
+    }
+
     // ---- position-keyed edge store ----
     pub open spec fn has_pair(&self, u: usize, v: usize) -> bool {
         self.edges_map@.contains_key(u) && self.edges_map@[u]@.contains_key(v)
